@@ -266,3 +266,46 @@ func FrozenAliases(vs ...interface{}) int { return 0 }
 // SchedChannelsOnly: schedule exploration switches only at channel
 // operations and goroutine starts (not at mutex operations).
 func SchedChannelsOnly(on bool) {}
+
+// SetFile makes a file with the given content readable at (or near) path and
+// returns the path to use.  Engine: a virtual file.  Natively: a temp file.
+func SetFile(path, content string) string {
+	f, err := os.CreateTemp("", "zzverif-*.ank")
+	if err != nil {
+		panic(err)
+	}
+	f.WriteString(content)
+	f.Close()
+	return f.Name()
+}
+
+// CaptureStdout runs f and returns what it wrote to standard output.
+func CaptureStdout(f func()) string {
+	old := os.Stdout
+	r, w, err := os.Pipe()
+	if err != nil {
+		panic(err)
+	}
+	os.Stdout = w
+	done := make(chan string)
+	go func() {
+		var buf []byte
+		tmp := make([]byte, 4096)
+		for {
+			n, err := r.Read(tmp)
+			buf = append(buf, tmp[:n]...)
+			if err != nil {
+				break
+			}
+		}
+		done <- string(buf)
+	}()
+	func() {
+		defer func() {
+			w.Close()
+			os.Stdout = old
+		}()
+		f()
+	}()
+	return <-done
+}
